@@ -81,6 +81,21 @@ def body(rng, b: B, ind: str, is_test: bool, is_async: bool, n: list):
                 b.add("%slet c%d = src_%d.clone();" % (ind, k, k))
                 b.add("%sconsume(c%d);" % (ind, k))
                 b.add("%sconsume(src_%d);" % (ind, k))
+        elif r < 0.7 and rng.random() < 0.45:
+            # the risky call as a sub-expression: an argument, a condition, a scrutinee, a tuple member - and, in async code, lexically inside an
+            # awaited expression (argument of an awaited call, head of a chain that ends in .await, async block handed to an awaited spawn)
+            forms = [("%slet e%d = helper_%d(std::fs::read(\"emb_%d\"));", "fs"), ("%sif std::fs::metadata(\"emb_%d\").is_ok() { consume(flag_%d); }", "fs"),
+                     ("%slet e%d = (std::fs::read_to_string(\"emb_%d\"), %d);", "fs"), ("%smatch fs::read(\"emb_%d\") { Ok(_) => consume(ok_%d), Err(_) => consume(err_%d) }", "fs"),
+                     ("%slet e%d = helper_%d(opt_%d.unwrap());", "unwrap"), ("%sif res_%d.expect(\"emb\") > %d { consume(flag_%d); }", "expect")]
+            if is_async:
+                forms += [("%slet e%d = tokio::fs::write(\"dst_%d\", std::fs::read(\"emb_%d\").unwrap_or_default()).await;", "fs"),
+                          ("%slet e%d = client_%d.post(std::fs::read_to_string(\"emb_%d\").unwrap_or_default()).send().await;", "fs"),
+                          ("%slet e%d = async_helper_%d(std::net::TcpStream::connect(\"emb_%d:80\")).await;", "net"),
+                          ("%slet e%d = tokio::spawn(async move { std::thread::sleep(dur_%d) }).await;", "sleep"),
+                          ("%slet e%d = async_helper_%d(opt_%d.unwrap()).await;", "unwrap"),
+                          ("%slet e%d = tokio::time::timeout(limit_%d, async { thread::sleep(dur_%d) }).await;", "sleep")]
+            form, kind = rng.choice(forms)
+            b.add(form % ((ind,) + (k,) * (form.count("%d"))), kind, **c)
         elif r < 0.7:
             pre = rng.choice(["std::fs::", "fs::"])
             b.add("%slet f%d = %s%s(\"path_%d\");" % (ind, k, pre, rng.choice(FS_FUNCS), k), "fs", **c)
